@@ -164,6 +164,22 @@ class _Linalg:
         return NPX.sqrt(s)
 
 
+class _MA:
+    """numpy.ma with float dtypes mapped to object when the data are symbolic"""
+
+    def __getattr__(self, n):
+        return getattr(rnp.ma, n)
+
+    @staticmethod
+    def array(data, dtype=None, copy=False, ndmin=0, mask=rnp.ma.nomask, **kw):
+        if is_float_dtype(dtype) and (has_sym(data) or isobj(data) or (isinstance(data, rnp.ma.MaskedArray) and data.dtype == object)):
+            dtype = object
+        r = rnp.ma.array(data, dtype=dtype, copy=copy, ndmin=ndmin, mask=mask, **kw)
+        return r
+
+    masked_array = array
+
+
 class _Random:
     def __getattr__(self, n):
         return getattr(rnp.random, n)
@@ -175,7 +191,7 @@ class NP:
     def __init__(self):
         self.linalg = _Linalg()
         self.random = _Random()
-        self.ma = rnp.ma
+        self.ma = _MA()
         self.symbolic_pi = True
         self.symbolic_consts = True
         for name in "sqrt exp log sin cos tan arcsin arccos arctan".split():
@@ -224,10 +240,11 @@ class NP:
             return a.astype(rnp.float64).astype(object)
         if not has_sym(a):
             return rnp.asarray(a, dtype=rnp.float64).astype(object)
-        try:
-            return rnp.array(a, dtype=object)
-        except ValueError as e:
-            raise ValueError(str(e))
+        r = rnp.array(a, dtype=object)
+        if r.ndim >= 1 and r.size and any(isinstance(x, (list, tuple, rnp.ndarray)) for x in r.ravel()):
+            # numpy refuses ragged input for a float dtype
+            raise ValueError("setting an array element with a sequence. The requested array has an inhomogeneous shape")
+        return r
 
     def array(self, a, dtype=None, copy=True, ndmin=0, **kw):
         if is_float_dtype(dtype) or (dtype is None and has_sym(a)) or (dtype is None and isobj(a)):
